@@ -15,7 +15,8 @@ def _self_test(chk, drv, views, rules_path, flag_path):
     for decl, flip, p2 in (("right", False, False), ("laterIndef", True, False), ("right", False, True), ("random", True, True)):
         for r in rows:
             if (r["L"] == [1] and r["shape"] == "short" and r["red"] and r["datf"] == "list" and r["decl"] == decl
-                    and bool(r.get("p2")) == p2 and r.get("binding") == "both" and "babbage" in r["eras"]):
+                    and bool(r.get("p2")) == p2 and r.get("binding") == "both" and "babbage" in r["eras"]
+                    and r.get("rform", "any") == "any" and r.get("denc", "any") == "any"):
                 if r["accept"] == flip:
                     raise vlib.MachineryError("self-test: reference row %s has spec verdict %r" % (decl, r["accept"]))
                 q = dict(r)
@@ -65,7 +66,13 @@ def run(chk, replay=None):
                 "(field p2; quick: the flagged table for the shape in P2Shapes, thorough: for every shape): the specification "
                 "proves that verdict, reason, right and declared term do not read it (FlagIrrelevant), and the flagged rows run on "
                 "transactions with is_valid = false (Alonzo..Conway: third element of the envelope; Dijkstra: the flag the block "
-                "decoder assigns to a member of invalid_transactions), keys ending in :p2invalid")
+                "decoder assigns to a member of invalid_transactions), keys ending in :p2invalid. The encoding shape of the script "
+                "data is a dimension as well (fields rs = redeemer form list/map x canonical, non-minimal heads, indefinite "
+                "container, map keys out of order, map with a repeated key (Conway, last wins); denc = datum encoding canonical, "
+                "non-minimal, indefinite): the specification states that the right term holds the ORIGINAL bytes for every "
+                "shape and that the hash of a re-encoding is accepted exactly when re-encoding changes nothing (OriginalBytes); "
+                "those rows are built with exactly that shape on the wire and decoded by the era's decoder, keys carry "
+                ":renc=<form>-<enc> / :denc=<enc> (quick: L = {V1}; thorough: every L, flagged as well)")
     chk.assumptions = [
         "Blake2b-256 is collision free (hashes are terms in the model; the driver checks that the real declared hash equals "
         "the real right hash exactly when the model accepts)",
@@ -78,6 +85,9 @@ def run(chk, replay=None):
         "'the table rejects => the rule rejects' is judged (binding = rejectOnly; over-rejections are counted in flagged_rows)",
         "a Dijkstra transaction cannot encode is_valid = false; the driver flags the decoded transaction with the assignment the "
         "Dijkstra block decoder makes for members of invalid_transactions (TxIsValid = false)",
+        "whether a redeemer map with a repeated key decodes at all is not judged (Conway decodes it last-wins as the ledger "
+        "does; the shape is not generated for Dijkstra, whose decoder refuses it); the re-encoding of such a map is the "
+        "canonical encoding of the last-wins value",
         "the rule list is observed entry by entry (only the script-data-hash error types are read); the rest of the "
         "transaction is not made valid for the other rules",
     ]
@@ -94,9 +104,14 @@ def run(chk, replay=None):
     for n, p in (("views", views), ("rules", rules)):
         with open(p) as f:
             counts[n] = sum(1 for line in f if line.strip())
-    counts["rules_flagged"] = sum(1 for row in vlib.read_ndjson(rules) if row.get("p2"))
+    all_rows = vlib.read_ndjson(rules)
+    counts["rules_flagged"] = sum(1 for row in all_rows if row.get("p2"))
+    counts["rules_explicit_redeemer_shape"] = sum(1 for row in all_rows if row.get("rform", "any") != "any")
+    counts["rules_explicit_datum_encoding"] = sum(1 for row in all_rows if row.get("denc", "any") != "any")
     if not counts["rules_flagged"] or not os.path.exists(flag):
         raise vlib.MachineryError("LangViews: no flagged (p2) rule rows / flag.ndjson in the TLC output")
+    if not counts["rules_explicit_redeemer_shape"] or not counts["rules_explicit_datum_encoding"]:
+        raise vlib.MachineryError("LangViews: no rule rows with an explicit encoding shape in the TLC output")
     chk.extra["tlc_rows"] = counts
 
     drv = vlib.go_build("c31")
